@@ -84,6 +84,8 @@ def run_mutant(args):
 
 
 def selftest(prop, base_fdir, base_ctx, tier):
+    if os.environ.get("VERIF_NO_SELFTEST"):      # used by tools/run_seeded.py only (the tree is deliberately broken there)
+        return []
     muts = load_mutants(prop)
     if tier == "quick":
         can = [m for m in muts if m.get("canary")]
